@@ -1,6 +1,6 @@
 #!/bin/bash
 # seed_confirm.sh <ID>: in the sub-agent's worktree: build + full test suite with the change applied
-id="$1"; wt=/tmp/wt/$id
+id="$1"; wt=${WTROOT:-/tmp/wt}/$id
 export GOFLAGS=-mod=mod GOPROXY=off GOSUMDB=off GOTOOLCHAIN=local
 cd $wt || exit 3
 git diff --stat -- . ':!*.txt' | tail -3
